@@ -108,3 +108,44 @@ def validate(ctx, module, events, tag, plan_lines=None, cfg=None, matcher=None, 
 def replay_plan(path):
     with open(path) as f:
         return [ln.rstrip("\n") for ln in f if ln.strip() and not ln.startswith("#")]
+
+
+# ---- relational events: two recorded results related per architecture ------------------------------------------
+def results_by_line(events):
+    """{plan id: {arch: event}}"""
+    out = defaultdict(dict)
+    for e in events:
+        for a in e["archs"]:
+            out[e["id"]][a] = e
+    return out
+
+
+def relate(byline, id1, id2, kind, op, t, extra=None, arch_map=None, r1_slice=None, r2_slice=None):
+    """one relational event per distinct (result of line id1, result of line id2) pair, with the architectures that produced it.
+    arch_map: optional {arch of id1: arch of id2} (e.g. batch arch -> 'scalar')."""
+    groups = {}
+    order = []
+    for a, e1 in byline.get(id1, {}).items():
+        a2 = arch_map(a) if arch_map else a
+        e2 = byline.get(id2, {}).get(a2)
+        if e2 is None:
+            continue
+        if e1["k"] == "fault" or e2["k"] == "fault":
+            key = ("fault", a)
+            ev = dict(id=id1, k="fault", op=op, t=t, archs=[a], sig=(e1 if e1["k"] == "fault" else e2).get("sig", 0))
+        else:
+            r1 = e1["r"][r1_slice[0]:r1_slice[1]] if r1_slice else e1["r"]
+            r2 = e2["r"][r2_slice[0]:r2_slice[1]] if r2_slice else e2["r"]
+            key = (tuple(r1), tuple(r2))
+            ev = dict(id=id1, k=kind, op=op, t=t, r=r1, r2=r2, archs=[])
+            for f in ("a", "b"):
+                if f in e1:
+                    ev[f] = e1[f]
+            if extra:
+                ev.update(extra)
+        if key not in groups:
+            groups[key] = ev
+            order.append(key)
+        if a not in groups[key]["archs"]:
+            groups[key]["archs"].append(a)
+    return [groups[k] for k in order]
